@@ -106,7 +106,9 @@ def gen(tier, rng):
                     out.append((line(a, REQ_BODIES[i % 2], AUTHS[i % 2], PATHS[i % 3], st, ct, fr + "+" + flag, body, "none"), "circumstance/" + flag))
         # whole flows: an OAuth error reply is classified as through an in-memory client
         for st, body in ((400, b"{\"error\":\"invalid_grant\"}"), (400, b"{\"error\":\"authorization_pending\"}"), (401, b"{\"error\":\"invalid_client\",\"error_description\":\"x\"}"),
-                         (200, b"{\"access_token\":\"tok\",\"token_type\":\"Bearer\",\"expires_in\":3600}"), (500, b""), (503, b"<html>"), (200, b"not json"), (403, b"{\"error\":\"custom\"}")):
+                         (200, b"{\"access_token\":\"tok\",\"token_type\":\"Bearer\",\"expires_in\":3600}"), (500, b""), (503, b"<html>"), (200, b"not json"), (403, b"{\"error\":\"custom\"}"),
+                         (400, b"{\"error\":\"invalid_grant\",\"error_description\":\"Benutzer ung\xfcltig \xff\"}"), (200, b"{\"access_token\":\"t\xfck\",\"token_type\":\"bearer\"}"),
+                         (401, b"{\"error\":\"invalid_client\",\"error_uri\":\"/relative/doc#x\"}")):
             for ct in (b"application/json", None, b"text/html"):
                 out.append(("NETFLOW %s %d %s %s" % (a, st, C.topt(ct), C.tb(body)), "flow"))
     return out
